@@ -54,7 +54,18 @@ func (c *Ctx) pickRecord(cfg val.GenCfg) *pick {
 		if b.Types[d.Name] == nil {
 			continue
 		}
-		g := val.NewGen(b.Schema, c.R.Fork("value"), cfg)
+		vcfg := cfg
+		if c.R.Chance(1, 12) {
+			// DEEP values: recursion and nesting of length-prefixed records well beyond the
+			// default depth, kept narrow so that they stay small
+			vcfg.MaxDepth = c.R.Range(5, 9)
+			vcfg.MaxElems = 1
+			vcfg.FullMsg = 90
+			vcfg.Ladder = 0
+			vcfg.LongProb = 0
+			c.Count("deep_values", 1)
+		}
+		g := val.NewGen(b.Schema, c.R.Fork("value"), vcfg)
 		if !g.Inhabited(d.Name) {
 			continue
 		}
